@@ -22,13 +22,13 @@ Lemma sem_reset z a x : same_cells (run_member z gen_table MReset a (wf1 x)) (m_
 Proof. sem1 x. Qed.
 Lemma sem_dcsin z a x : same_cells (run_member z gen_table MDcsin a (wf1 x)) (m_default_construct_storage_if_needed (wf1 x)).
 Proof. sem1 x. Qed.
-Lemma sem_emplace z v x : same_cells (run_member z gen_table MEmplace (ret v) (wf1 x)) (m_emplace v (wf1 x)).
+Lemma sem_emplace z v x : same_cells (run_member z gen_table MEmplace (vval v) (wf1 x)) (m_emplace v (wf1 x)).
 Proof. sem1 x. Qed.
-Lemma sem_assign_value z v x : same_cells (run_member z gen_table MAssignValue (ret v) (wf1 x)) (m_assign_value v (wf1 x)).
+Lemma sem_assign_value z v x : same_cells (run_member z gen_table MAssignValue (vval v) (wf1 x)) (m_assign_value v (wf1 x)).
 Proof. sem1 x. Qed.
-Lemma sem_ctor_value z v : same_cells (run_member z gen_table MCtorValue (ret v) (wf1 None)) (m_ctor_value v (wf1 None)).
+Lemma sem_ctor_value z v : same_cells (run_member z gen_table MCtorValue (vval v) (wf1 None)) (m_ctor_value v (wf1 None)).
 Proof. cbv; split; reflexivity. Qed.
-Lemma sem_make_optional z v : same_cells (run_member z gen_table MMakeOptional (ret v) (wf1 None)) (m_emplace v (wf1 None)).
+Lemma sem_make_optional z v : same_cells (run_member z gen_table MMakeOptional (vval v) (wf1 None)) (m_emplace v (wf1 None)).
 Proof. cbv; split; reflexivity. Qed.
 Lemma sem_dtor z a x :
   same_cells (bindO (run_member z gen_table MDtor a) (fun _ => lift (release This)) (wf1 x)) (m_dtor (wf1 x)).
@@ -95,3 +95,14 @@ Lemma sem_traits :
   tf_eq_int gen_traits = true /\ tf_eq_string gen_traits = true /\ tf_eq_payload gen_traits = true /\
   tf_impl_eq_shape gen_traits = true.
 Proof. repeat split; reflexivity. Qed.
+
+(* value categories: the value assignment never modifies its argument (not even an xvalue: value() = rhs copies);
+   emplace moves from its argument exactly when the caller passed an rvalue *)
+Lemma sem_assign_deref z rv x w :
+  same_cells (run_member z gen_table MAssignValue (vderef z rv) (wf2 x (Some w)))
+             (m_assign_from (read_value z Other false) (wf2 x (Some w))).
+Proof. destruct rv, z, x; cbv; split; reflexivity. Qed.
+Lemma sem_emplace_deref z rv x w :
+  same_cells (run_member z gen_table MEmplace (vderef z rv) (wf2 x (Some w)))
+             (m_emplace_from (read_value z Other rv) (wf2 x (Some w))).
+Proof. destruct rv, z, x; cbv; split; reflexivity. Qed.
